@@ -1,8 +1,8 @@
 package core
 
 import (
-	"strings"
 	"go/token"
+	"strings"
 
 	"golang.org/x/tools/go/ssa"
 )
